@@ -27,6 +27,11 @@ class Include:
                 if 0 < k < n:
                     out.append({"id": "split/%s/at%d" % (p, k), "k": "split", "p": p, "at": k, "bounded": "%s split at %d" % (p, k)})
             out.append({"id": "nested/%s" % p, "k": "nested", "p": p, "bounded": "%s in 3 nested files" % p})
+            # the same nesting with file names that contain one another (stdio.asm > io.asm > o.asm) and that share a prefix
+            out.append({"id": "nested-names/%s/contained" % p, "k": "nested", "p": p, "names": ["stdio.asm", "io.asm", "o.asm"],
+                        "bounded": "%s in 3 nested files whose names contain one another" % p})
+            out.append({"id": "nested-names/%s/prefix" % p, "k": "nested", "p": p, "names": ["defs.asm", "defs.asm.inc", "defs.as"],
+                        "bounded": "%s in 3 nested files whose names are prefixes of one another" % p})
             out.append({"id": "middle/%s" % p, "k": "middle", "p": p, "bounded": "%s with the middle third included" % p})
         for shape in ("adjacent", "apart", "nested-twice"):
             out.append({"id": "same-file-twice/%s" % shape, "k": "twice", "shape": shape, "bounded": "one file included twice (%s)" % shape})
@@ -67,9 +72,10 @@ class Include:
         lines = PROGRAMS[cell["p"]]
         n = len(lines)
         a, b = n // 3, 2 * n // 3
-        main = lines[:a] + ["        INCLUDE l1.asm\n"]
-        fs = {"l1.asm": lines[a:b] + ["        INCLUDE l2.asm\n"], "l2.asm": lines[b:b + 1] + ["        INCLUDE l3.asm\n"], "l3.asm": lines[b + 1:]}
-        self._cmp(env, cell, main, fs, lines, native, "nested/%s" % cell["p"])
+        n1, n2, n3 = cell.get("names") or ["l1.asm", "l2.asm", "l3.asm"]
+        main = lines[:a] + ["        INCLUDE %s\n" % n1]
+        fs = {n1: lines[a:b] + ["        INCLUDE %s\n" % n2], n2: lines[b:b + 1] + ["        INCLUDE %s\n" % n3], n3: lines[b + 1:]}
+        self._cmp(env, cell, main, fs, lines, native, cell["id"])
 
     def k_middle(self, env, cell, native):
         lines = PROGRAMS[cell["p"]]
